@@ -102,6 +102,11 @@ func (enc *Encode) UnmarshalCaddyfile(d *caddyfile.Dispenser) error {
 	}
 
 	for _, arg := range remainingArgs {
+		if _, ok := enc.EncodingsRaw[arg]; ok {
+			// already configured in the block; keep that
+			// configuration and its place in the preference
+			continue
+		}
 		mod, err := caddy.GetModule("http.encoders." + arg)
 		if err != nil {
 			return d.Errf("finding encoder module '%s': %v", mod, err)
